@@ -61,6 +61,9 @@ func newBoundsCtx(p *Prog, fn *ssa.Function) *boundsCtx {
 func (bc *boundsCtx) addrKey(a ssa.Value) string {
 	switch x := a.(type) {
 	case *ssa.FieldAddr:
+		if src := structCopySource(x.X); src != nil {
+			return "&" + bc.key(src) + "." + fieldAddrName(x)
+		}
 		return "&" + bc.key(x.X) + "." + fieldAddrName(x)
 	case *ssa.IndexAddr:
 		if k, ok := constInt(x.Index); ok {
@@ -72,6 +75,53 @@ func (bc *boundsCtx) addrKey(a ssa.Value) string {
 		return fmt.Sprintf("&alloc%p", x)
 	}
 	return ""
+}
+
+// structCopySource: b is a local struct cell that is only ever assigned one whole-struct copy `*b = *a`
+// of another local cell a (the receiver copy of an inlined value-receiver helper), is only read field by
+// field afterwards, and a itself is assigned once (a spilled parameter): then a field of b is the field of a.
+func structCopySource(b ssa.Value) ssa.Value {
+	al, ok := b.(*ssa.Alloc)
+	if !ok {
+		return nil
+	}
+	var src ssa.Value
+	for _, r := range refs(al) {
+		switch x := r.(type) {
+		case *ssa.Store:
+			if x.Addr != ssa.Value(al) || src != nil {
+				return nil
+			}
+			ld, ok := x.Val.(*ssa.UnOp)
+			if !ok || ld.Op != token.MUL {
+				return nil
+			}
+			a, ok := ld.X.(*ssa.Alloc)
+			if !ok {
+				return nil
+			}
+			n := 0
+			for _, r2 := range refs(a) {
+				if st, ok := r2.(*ssa.Store); ok && st.Addr == ssa.Value(a) {
+					n++
+				}
+			}
+			if n != 1 {
+				return nil
+			}
+			src = a
+		case *ssa.FieldAddr:
+			for _, r2 := range refs(x) {
+				if u, ok := r2.(*ssa.UnOp); !ok || u.Op != token.MUL {
+					return nil
+				}
+			}
+		case *ssa.DebugRef:
+		default:
+			return nil
+		}
+	}
+	return src
 }
 
 // storeMayReach: can the store execute before the load on some path?
@@ -158,6 +208,30 @@ func (bc *boundsCtx) key(v ssa.Value) string {
 		}
 		if recv, isNF := reflectCountCall(&x.Call, "NumField"); isNF {
 			k = "numfield(" + bc.reflKey(recv) + ")"
+		}
+	case *ssa.Field:
+		// a field of a struct value loaded as a whole (a value-receiver helper was inlined: a.Start with
+		// a := *areaCell) is the field read through the cell's address, when no store can come in between
+		if ld, ok := x.X.(*ssa.UnOp); ok && ld.Op == token.MUL {
+			if st, ok := ld.X.Type().Underlying().(*types.Pointer); ok {
+				if sty, ok := st.Elem().Underlying().(*types.Struct); ok && x.Field < sty.NumFields() {
+					fk := "&" + bc.key(ld.X) + "." + sty.Field(x.Field).Name()
+					reached := false
+					for _, ak := range []string{fk, bc.addrKey(ld.X)} {
+						if ak == "" {
+							continue
+						}
+						for _, stv := range bc.kills[ak] {
+							if storeMayReach(stv, x) && !(len(bc.kills[ak]) == 1 && !storeMayReach(x, stv)) {
+								reached = true
+							}
+						}
+					}
+					if !reached {
+						k = "*" + fk
+					}
+				}
+			}
 		}
 	case *ssa.ChangeType:
 		k = bc.key(x.X)
